@@ -337,9 +337,13 @@ func C12(p *load.Prog, r *report.Report) {
 	if fn := anchorMethod(p, p.Field, "Element", "FromBytesWithReduce"); fn != nil {
 		X := os2ip("in", 0, 32)
 		runEach(p, r, "C12.parse", "field.Element.FromBytesWithReduce", fn, func(it *absint.Interp) []absint.Value {
-			return []absint.Value{ptr(m.newFE(it, "e", pInt(FP, 0))), symByteArray(it, "in", 32)}
+			return []absint.Value{ptr(m.newFE(it, "e", pInt(FP, 0))), byteParam(it, fn, 1, "in", 32)}
 		}, func(res *absint.PathResult) {
 			tup, _ := res.Ret.(absint.Tuple)
+			if tup == nil && res.Ret != nil {
+				// the variant that returns only the flag (the receiver is set in place)
+				tup = absint.Tuple{nil, res.Ret}
+			}
 			good := false
 			if len(tup) == 2 {
 				got, why := res.It.ReadMont(FP, m.limbCell(res.It.InputRoots()[0]))
@@ -356,6 +360,12 @@ func C12(p *load.Prog, r *report.Report) {
 			return []absint.Value{ptr(m.newFE(it, "a", a))}
 		}, func(res *absint.PathResult) {
 			bs, ln, ok := res.It.SliceContent(res.Ret)
+			if !ok {
+				// the variant that returns the 32 bytes as an array
+				if ab, isArr := res.It.ArrayContent(res.Ret); isArr {
+					bs, ln, ok = ab, absint.TInt(int64(len(ab))), true
+				}
+			}
 			good := ok && len(bs) == 32
 			if good {
 				if k, isC := ln.IsConst(); !isC || k.Int64() != 32 {
@@ -374,7 +384,7 @@ func C12(p *load.Prog, r *report.Report) {
 	if fn := anchorMethod(p, p.Field, "Element", "HashToFieldElement"); fn != nil {
 		X := os2ip("in", 0, 48)
 		runEach(p, r, "C12.wide", "field.Element.HashToFieldElement", fn, func(it *absint.Interp) []absint.Value {
-			return []absint.Value{ptr(m.newFE(it, "e", pInt(FP, 0))), symByteArray(it, "in", 48)}
+			return []absint.Value{ptr(m.newFE(it, "e", pInt(FP, 0))), byteParam(it, fn, 1, "in", 48)}
 		}, func(res *absint.PathResult) {
 			got, why := res.It.ReadMont(FP, m.limbCell(res.It.InputRoots()[0]))
 			want := sp(res, absint.EmbTerm(FP, X))
